@@ -33,6 +33,7 @@ def cases(ctx):
             for pos in ("di", "id"):
                 out.append({"id": "diff|%s|%s:%s" % (op, pos, ty), "kind": "diff", "op": op, "pos": pos, "ty": ty, "weight": 20})
         out.append({"id": "diff|div_rounded|ii:%s" % ty, "kind": "diff", "op": "div_rounded", "pos": "ii", "ty": ty, "weight": 10})
+    out += rounding_kernel_obligations(ctx)
     return out
 
 
@@ -245,6 +246,8 @@ def run_diff(ctx, prog, res, case):
 
 
 def run_case(ctx, case):
+    if case.get("delegate"):
+        return run_delegated(ctx, case)
     prog = ctx.program("dev")
     res = Res(case["id"])
     if case["kind"] == "wiring":
@@ -283,6 +286,8 @@ NATIVE = {"add": "add", "sub": "sub", "mul": "mul", "div": "div", "rem": "rem", 
 
 
 def replay(ctx, native, v):
+    if v.get("info", {}).get("delegate"):
+        return replay_delegated(ctx, native, v)
     info = v["info"]
     nat = native["dev"]
     if info["kind"] == "wiring":
